@@ -316,4 +316,5 @@ func runRoundtripMode() {
 		}
 	}
 	runKnownFindings(r)
+	longStreamCases("C01", rng.FromEnv(111))
 }
